@@ -10,8 +10,8 @@ The hypothesis of the safety theorems is `safeSched cfg (init n) evs = true`: **
 of the schedule, prefix closed (`safe_prefix`), evaluated by the driver for every schedule of the tie.
 It holds for every schedule when `grace_period=None` (`no_grace_every_schedule_safe`).  It cannot be
 dropped on today's code: `takeover_race_two_holders_witness` (F13; open lock and symlink lock),
-`symlink_single_waiter_steals_fresh_lock_witness`, `stalled_waiter_two_holders_witness`; each of these
-schedules is replayed on the real code by `verif/props/c07_lock.py` on every run.
+`f13_symlink_needs_no_overlap_witness`, `stalled_waiter_two_holders_witness`,
+`punctual_not_enough_for_symlink_witness`; each of these schedules is replayed on the real code by `verif/props/c07_lock.py` on every run.
 -/
 namespace OptunaVerif.C07Lock
 open OptunaVerif OptunaVerif.FileLock
@@ -133,25 +133,49 @@ example : liveHolders (run { kind := .symlink, grace := none } (init 2) (stepsOf
 
 /-! ### the hypothesis cannot be dropped on today's code (each schedule is replayed on the real classes) -/
 
-/-- **F13** (open lock, grace 2, three workers, 35 events): holder 0 dies in its critical section; waiters
+/-- **F13** (open lock, grace 2, three workers, 37 events): holder 0 dies in its critical section; waiters
 1 and 2 both pass the grace check; 1 renames the stale lock away, creates the lock, enters; 2's pending
 `rename` removes the lock file 1 has just created and 2 enters too: two live holders.  The takeover is
 not a compare-and-swap. -/
 theorem takeover_race_two_holders_witness :
     liveHolders f13Open.final = [1, 2] ∧ f13Open.safe = false ∧
     (∃ k, liveTakeoverAt (run f13Open.cfg (init f13Open.n) (f13Open.evs.take k)) (.step 2) = true) := by
-  refine ⟨by decide, by decide, 30, by decide⟩
+  refine ⟨by decide, by decide, 31, by decide⟩
 
-/-- F13 on the symlink lock (32 events) -/
+/-- F13 on the symlink lock (34 events) -/
 theorem takeover_race_two_holders_witness_symlink :
     liveHolders f13Symlink.final = [1, 2] ∧ f13Symlink.safe = false := by decide
 
-/-- symlink lock: ONE waiter past the grace period is enough.  `os.stat` follows the link, so the "lock
-changed hands" test compares the *journal's* mtime: after breaking the dead holder's lock, waiter 1
-finds the lock re-created by newcomer 2 (which has not written yet), sees the old mtime, its timer is
-still expired, and it breaks the live lock. -/
-theorem symlink_single_waiter_steals_fresh_lock_witness :
-    liveHolders symlinkStale.final = [1, 2] ∧ symlinkStale.safe = false := by decide
+/-- on the symlink lock F13 needs no overlap of the two takeovers (`os.stat` follows the link: the "lock
+changed hands" test watches the journal's mtime): both waiters have watched the dead holder's lock for
+longer than the grace period; 1 takes over *completely* and enters; 2 polls afterwards, sees the
+unchanged journal mtime with its own timer still expired, and breaks 1's live lock.  The schedule even
+satisfies the timing discipline `punctualSched` (which implies safety for the open lock). -/
+theorem f13_symlink_needs_no_overlap_witness :
+    liveHolders f13SymlinkSequential.final = [1, 2] ∧ f13SymlinkSequential.safe = false ∧
+    punctualSched f13SymlinkSequential.cfg 2 (init 3) f13SymlinkSequential.evs = true := by decide
+
+/-- **the repair d602c3c**: after a successful takeover the taker restarts its timer with one more clock
+read (`tkRestart`), then sleeps -/
+theorem takeover_restarts_timer (cfg : Cfg) (st : St) (w : Nat) (wk : Worker) (hw : st.ws[w]? = some wk)
+    (hlive : wk.dead = false) (hpc : wk.pc = .tkRestart) :
+    (step cfg st (.step w)).2 = .monotonic st.sh.now ∧
+    (step cfg st (.step w)).1.ws[w]? = some { wk with pc := .sleep, last := st.sh.now } ∧
+    (step cfg st (.step w)).1.sh = st.sh := by
+  rw [step_live cfg st w wk hw hlive]
+  refine ⟨by simp [stepW, hpc], ?_, by simp [stepW, hpc]⟩
+  simp only
+  rw [updAt_self st.ws w wk _ hw]
+  simp [stepW, hpc]
+
+example : pcOf (run soloTakeoverSymlink.cfg (init 2) (soloTakeoverSymlink.evs.take 17)) 1 = some .tkRestart := by decide
+
+/-- the schedule that ended with two live holders before d602c3c (symlink lock, ONE waiter past the grace
+period, a newcomer wins the re-created lock while the taker sleeps): the taker now sees an unexpired timer
+and keeps polling; one holder, safe -/
+theorem symlink_single_waiter_no_longer_steals :
+    liveHolders symlinkAfterTakeover.final = [2] ∧ symlinkAfterTakeover.safe = true ∧
+    pcOf symlinkAfterTakeover.final 1 = some .sleep := by decide
 
 /-- no crash at all (open lock, two workers): a waiter suspended for longer than the grace period
 between sampling the clock and comparing it removes the fresh lock of a live holder -/
@@ -187,25 +211,30 @@ theorem mutual_exclusion_punctual (cfg : Cfg) (g : Nat) (hk : cfg.kind = .openEx
 
 example : liveHolders soloTakeoverOpen.final = [1] := by decide
 
-/-- the same discipline is NOT enough for the symlink lock (its `stat` watches the journal's mtime, not
-the lock's): `symlinkStale` is punctual, yet it ends with two live holders -/
+/-- the same discipline is still NOT enough for the symlink lock, also without any crash: its `stat`
+watches the journal's mtime, so a waiter that finds the lock held at each of its polls — by *different*
+punctual holders, the second of which has not written yet — and the journal unmodified for longer than
+the grace period, breaks a live lock that is younger than the grace period (`symlinkHandover`).  What the
+symlink lock guarantees is therefore only: a live holder keeps the lock as long as the journal's mtime
+has changed within the grace period as seen by every waiter. -/
 theorem punctual_not_enough_for_symlink_witness :
-    punctualSched symlinkStale.cfg 2 (init 3) symlinkStale.evs = true ∧
-    symlinkStale.safe = false ∧ liveHolders symlinkStale.final = [1, 2] := by decide
+    punctualSched symlinkHandover.cfg 2 (init 3) symlinkHandover.evs = true ∧
+    symlinkHandover.safe = false ∧ liveHolders symlinkHandover.final = [1, 2] ∧
+    symlinkHandover.final.ws.all (fun wk => !wk.dead) = true := by decide
 
 /-! ### a crashed holder is taken over (C05) -/
 
 /-- **a crashed holder is taken over**: the lock file exists (its creator `o` is dead, or merely slow:
 the code cannot tell), waiter `w` is about to retry the exclusive create, has already sampled the
 current mtime and its timer is past the grace period.  Then `w` running alone — create fails, `stat`,
-clock check, `rename`, `unlink`, `sleep`, create succeeds (, `close`) — ends inside its critical
-section as the creator of the lock file; 7 calls with the symlink lock, 8 with the open lock. -/
+clock check, `rename`, `unlink`, timer restart, `sleep`, create succeeds (, `close`) — ends inside its
+critical section as the creator of the lock file; 8 calls with the symlink lock, 9 with the open lock. -/
 theorem crashed_holder_taken_over (cfg : Cfg) (g : Nat) (hg : cfg.grace = some g) (st : St) (w : Nat) (wk : Worker)
     (o s : Nat) (hw : st.ws[w]? = some wk) (hlive : wk.dead = false) (hpc : wk.pc = .create)
     (hlock : st.sh.lock = some (o, s)) (hm : wk.mtime = some (statVal cfg st.sh s))
     (hlast : wk.last + g < st.sh.now) :
-    (run cfg st (stepsOf w (match cfg.kind with | .symlink => 7 | .openExcl => 8))).sh.lock = some (w, st.sh.now) ∧
-    pcOf (run cfg st (stepsOf w (match cfg.kind with | .symlink => 7 | .openExcl => 8))) w = some .crit := by
+    (run cfg st (stepsOf w (match cfg.kind with | .symlink => 8 | .openExcl => 9))).sh.lock = some (w, st.sh.now) ∧
+    pcOf (run cfg st (stepsOf w (match cfg.kind with | .symlink => 8 | .openExcl => 9))) w = some .crit := by
   rw [run_solo cfg w _ st wk hw hlive]
   have h := solo_takeover cfg g hg st.sh w wk o s hpc hlock hm hlast
   refine ⟨h.1, ?_⟩
